@@ -97,7 +97,8 @@ def make_replay(r, ob, pid, suite_dir):
     path = os.path.join(VERIF, "out", "replay", "%s_%s.json" % (pid, re.sub(r"\W", "_", r["name"])))
     doc = {"property": pid, "obligation": r["name"], "failed": r.get("failed", []),
            "enforced_function": r.get("enforce"), "backend": r.get("backend"),
-           "counterexample": r.get("cex"), "verifier_output": r.get("cbmc_tail"), "commands": r.get("log"),
+           "counterexample": dict(list((r.get("cex") or {}).items())[:300]) if r.get("cex") else None,
+           "verifier_output": r.get("cbmc_tail"), "commands": r.get("log"),
            "reproduced": False}
     reproduced = False
     if r.get("native_reproduced"):
